@@ -138,6 +138,9 @@ func rowHistory(pairs [][2]int, want []parquet.Row, r rowsAPI, rng *rand.Rand, m
 		}
 		got = canonVariants(pairs, want[pos:pos+exp], got)
 		for i := range got {
+			if sameRow(want[pos+i], got[i]) {
+				continue
+			}
 			if w, g := safeCanonRow(want[pos+i]), safeCanonRow(got[i]); w != g {
 				return &historyError{fmt.Sprintf("%s: row %d: want [%s] got [%s]", strings.Join(trace, " "), pos+i, core.Trunc(w, 300), core.Trunc(g, 300))}
 			}
